@@ -7,6 +7,7 @@ import Model.C13.Bip39
 import Model.C13.Slip39
 import Model.C13.Generate
 import Model.C13.Dispatch
+import Model.C13.Entry
 import Generated.Slip39
 import Generated.Mnemonic
 open Btc Btc.C13
@@ -126,8 +127,7 @@ def handle (toks : List String) : String :=
   | ["slip39.master", pass, sentences] =>
     match fromHex? pass, (sentences.splitOn ";").mapM natList? with
     | some pass, some ss =>
-      match masterSecret hmac256
-          (fun first => roundFunction pass first.iterationExponent first.identifier first.extendable) ss with
+      match masterSecretFromMnemonics hmac256 (fun e id ext => roundFunction pass e id ext) pass ss with
       | .ok ms => "ok " ++ toHex ms
       | .error _ => "err value"
     | _, _ => "bad-op"
@@ -186,16 +186,16 @@ def handle (toks : List String) : String :=
       s!"ok {if b.isEmpty then "-" else b} {if all.isEmpty then "-" else ",".intercalate all} " ++
         (let t := seedType slip (if el == "-" then none else some el) b; if t.isEmpty then "-" else t)
     | _, _, _, _ => "bad-op"
-  | "slip39.generate" :: _secret :: _pw :: id :: ext :: e :: gt :: groups :: ems :: groupRp :: rest =>
+  | "slip39.generate" :: secret :: pw :: idBytes :: ext :: e :: gt :: groups :: groupRp :: rest =>
+    -- the whole of `mnemonics_from_master_secret` (entry checks, encryption, two-level split, codec) in the model;
     -- rest: one token per group-level random share, then per group `rp|rnd,rnd,…` (rp first)
-    match id.toNat?, bool? ext, e.toNat?, gt.toNat?, natList? groups, fromHex? ems, fromHex? groupRp with
-    | some id, some ext, some e, some gt, some gl, some ems, some grp =>
+    match fromHex? secret, fromHex? pw, fromHex? idBytes, bool? ext, e.toNat?, gt.toNat?, natList? groups,
+        fromHex? groupRp with
+    | some secret, some pw, some idb, some ext, some e, some gt, some gl, some grp =>
       let rec pairs : List Nat → List (Nat × Nat)
         | a :: b :: r => (a, b) :: pairs r
         | _ => []
       let groups := pairs gl
-      -- entry check of `mnemonics_from_master_secret`: a 1-of-N group with N > 1 is refused
-      if groups.any (fun g => g.1 = 1 ∧ g.2 > 1) then "err value" else
       let nGroupRnd := rest.length - groups.length
       let groupRnd := (rest.take nGroupRnd).mapM fromHex?
       let members := (rest.drop nGroupRnd).mapM fun tok =>
@@ -209,16 +209,13 @@ def handle (toks : List String) : String :=
       | some groupRnd, some members =>
         let mRnd := fun g => ((members.getD g ([], [])).2).map gfVec
         let mRp := fun g => gfVec (members.getD g ([], [])).1
-        match makeShares gf256Ops (digestGF hmac256) id ext e gt groups (gfVec ems) (groupRnd.map gfVec) (gfVec grp)
-            mRnd mRp with
+        match mnemonicsFromMasterSecret hmac256 (fun e id ext => roundFunction pw e id ext) pw secret groups gt e ext
+            idb (groupRnd.map gfVec) (gfVec grp) mRnd mRp with
         | .error _ => "err value"
-        | .ok table =>
-          let enc := table.map fun row => row.map fun sh =>
-            shareIndexes { sh with value := gfBytes sh.value }
-          if enc.any (·.any (·.isNone)) then "err value" else
-          "ok " ++ ";".intercalate (enc.map fun row => "/".intercalate (row.map fun i => showNats (i.getD [])))
+        | .ok sentences =>
+          "ok " ++ ";".intercalate (sentences.map fun row => "/".intercalate (row.map showNats))
       | _, _ => "bad-op"
-    | _, _, _, _, _, _, _ => "bad-op"
+    | _, _, _, _, _, _, _, _ => "bad-op"
   | ["bip85.entropy", key, _xprv, _path] =>
     match fromHex? key with
     | some k => "ok " ++ toHex (bip85Entropy hmacSha512 k)
